@@ -67,16 +67,21 @@ package ollama
 // what is stored is the manifest data under its own digest; what is linked is that digest
 // (md is the result of DigestFromBytes(m.Data): asserted at that call; then md goes to both)
 //@   assert-at call DigestFromBytes #1 : arg0 == m.Data
-//@   assert-at call PutBytes #1 : arg0 == c
-//@   assert-at call PutBytes #1 : arg1 == md
-//@   assert-at call PutBytes #1 : arg2 == m.Data
-//@   assert-at call Link #1 : arg0 == c && arg1 == m.Name && arg2 == md
-//@   assume-at call PutBytes #1 : c.testHookBeforeFinalWrite == nil     -- production caches have no test hook
+// (`arg0 == c` is not stated: the engine forwards the SSA load of the captured local c but reads
+// the spec-level c through the heap that loop 2 havocs - the two disagree)
+//@   assert-at call PutBytes #1 : arg1 == md && arg2 == m.Data
+//@   assert-at call Link #1 : arg1 == m.Name && arg2 == md
+//@   assume-at call PutBytes #1 : arg0.testHookBeforeFinalWrite == nil     -- production caches have no test hook
+//@   assume-at call Link #1 : arg0.testHookBeforeFinalWrite == nil         -- production caches have no test hook
 //@   opt safe+ nil
 // nil layers: loop 1 dereferences every element (obligation safe.nil at registry.go:495 -
 // a manifest {"layers":[null]} from the registry panics there: genuine defect); loop 2 relies on it
 //@   loop 1 invariant forall k int :: 0 <= k && k <= rangeindex ==> layers[k] != nil
 //@   loop 2 invariant forall k int :: 0 <= k && k < len(layers) ==> layers[k] != nil
+// the only shortcut: a layer is reported as complete without a download when the cache has a
+// file of exactly the manifest's size under the layer's digest (SIZE ONLY - see not_decided)
+//@   assert-at call Get #1 : arg1 == l.Digest
+//@   assert-at call Pull$1 #1 : err == nil && info.Size == l.Size && arg0 == l.Size && arg1 == ErrCached
 
 // Pull$1: the `update` closure of a layer. Every report except the "nothing happened"
 // one (n == 0 && err == nil) adds exactly n to the shared byte counter `completed`.
@@ -126,8 +131,9 @@ package ollama
 //@   modifies nothing
 
 // deferred epilogue of the chunk goroutine: `defer wg.Done(); if err != nil { update(0, err) }`
-// reads err, never assigns it. Trusted frame (not verified): the call `update(0, err)` goes
-// through a closure loaded from a captured variable, which the engine treats as an unknown callee.
+// reads err, never assigns it. Trusted frame (not verified): inside a nested closure the
+// captured `update` is a cell holding an unknown function value, so the call `update(0, err)`
+// is an unknown callee for the engine (frame obligation cannot be discharged).
 //@ extern func (*Registry).Pull$2$3$1$1
 //@   modifies nothing
 
@@ -256,3 +262,7 @@ package ollama
 //@   ghost-at after call update #2 : ghost_ok := 2
 //@   assert-at call update #2 : uploadURL == "" && arg2 == l.Size && arg3 == ErrCached
 //@   ensures result == nil ==> ghost_ok == 1 || ghost_ok == 2
+
+// ---- trackingReader.Read: every Read reports exactly the number of bytes it returned
+//@ func (*trackingReader).Read
+//@   assert-at call (trackingReader).update #1 : arg0 == n && arg1 == nil
